@@ -45,7 +45,12 @@ TxOfRow(rows, t) ==
   LET E == Kids(rows, rows[t][1], "exon") C == Kids(rows, rows[t][1], "CDS") IN
   \* a transcript row without exon / CDS rows of its own is its own single exon (fix 5f2b61b; IndexError before)
   IF E = {} /\ C = {} THEN Tx(rows, {t}, {}, rows[t][6]) ELSE Tx(rows, E, C, rows[t][6])
+(* a row whose end lies before its start (the machine writes such a row only as the sole exon row of its parent): the
+   transcript built from it is refused (fix f64a9a7: GFF3ParserError; an AssertionError before) *)
+HasReversedExon(rows) == \E i \in DOMAIN rows : rows[i][3] = "exon" /\ rows[i][4] > rows[i][5]
+                                                 /\ (rows[i][2] = rows[1][1] \/ \E t \in TxRows(rows) : rows[t][1] = rows[i][2])
 ParseGene(rows, bio) ==
+  IF HasReversedExon(rows) THEN <<"refuse", "GFF3ParserError">> ELSE
   LET top == rows[1]
       dE == Kids(rows, top[1], "exon") dC == Kids(rows, top[1], "CDS")
       fromRows == [t \in TxRows(rows) |-> TxOfRow(rows, t)]
